@@ -22,6 +22,8 @@ def main():
     try:
         import pyiga
         rec.info['pyiga_file'] = pyiga.__file__
+        # one assembler thread per worker unless a check asks otherwise (C08 varies it itself)
+        pyiga.set_max_threads(int(os.environ.get('VERIF_PYIGA_THREADS', '1')))
         if hasattr(mod, 'setup'):
             mod.setup(rec, a.tier)
         if a.replay:
